@@ -1341,3 +1341,503 @@ def s_T_method(E, a, info):
 @summ('<*const T as Pointer>::fmt', '<*mut RcBox as Pointer>::fmt')
 def s_ptr_fmt(E, a, info):
     return E.hooks.method_T(E, 'Pointer::fmt', [E.read(a[0])])
+
+
+# ------------------------------------------------------------------ wider API surface (so that plausible edits stay executable)
+def _opt(v):
+    return some(v) if v is not None else NONE
+
+
+@summ('core::mem::take')
+def s_mem_take(E, a, info):
+    old = E.read(a[0])
+    ty = info['gen'][0] if info['gen'] else ''
+    hd = I.last_seg(I.ty_head(ty)) if ty else ''
+    if hd in ('HashMap', 'HashSet'):
+        new = _new_map(E, hd == 'HashSet')
+    elif hd == 'Vec':
+        new = s_vec_new(E, [], info)
+    elif hd == 'Option':
+        new = NONE
+    elif ty in ('usize', 'isize'):
+        new = 0
+    elif ty == 'bool':
+        new = False
+    elif hd == 'Links':
+        new = E.invoke('link::Links::<T>::new', [], info['frame'])
+    else:
+        raise Unsupported('mem::take::<%s>' % ty)
+    E.write(a[0], new)
+    return old
+
+
+@summ('Cell::take')
+def s_cell_take(E, a, info):
+    old = E.read(a[0])
+    E.write(a[0], 0)
+    return old
+
+
+@summ('Cell::update')
+def s_cell_update(E, a, info):
+    old = E.read(a[0])
+    new = E.call_closure(a[1], [old])
+    E.write(a[0], new)
+    return new
+
+
+@summ('Cell::as_ptr', 'Cell::get_mut')
+def s_cell_as_ptr(E, a, info):
+    return a[0]
+
+
+@summ('Cell::into_inner')
+def s_cell_into_inner(E, a, info):
+    return a[0]
+
+
+@summ('Option::take')
+def s_opt_take(E, a, info):
+    old = E.read(a[0])
+    E.write(a[0], NONE)
+    return old
+
+
+@summ('Option::replace')
+def s_opt_replace(E, a, info):
+    old = E.read(a[0])
+    E.write(a[0], some(a[1]))
+    return old
+
+
+@summ('Option::insert', 'Option::get_or_insert')
+def s_opt_insert(E, a, info):
+    cur = E.read(a[0])
+    if info['key'].endswith('get_or_insert') and cur.variant == 'Some':
+        return a[0].field(0)
+    E.write(a[0], some(a[1]))
+    return a[0].field(0)
+
+
+@summ('Option::as_ref', 'Option::as_mut', 'Option::as_deref')
+def s_opt_as_ref(E, a, info):
+    cur = E.read(a[0])
+    if cur.variant == 'Some':
+        return some(a[0].field(0))
+    return NONE
+
+
+@summ('Option::unwrap_or_else')
+def s_opt_unwrap_or_else(E, a, info):
+    if a[0].variant == 'Some':
+        return a[0].fields[0]
+    return E.call_closure(a[1], [])
+
+
+@summ('Option::map_or_else')
+def s_opt_map_or_else(E, a, info):
+    if a[0].variant == 'Some':
+        return E.call_closure(a[2], [a[0].fields[0]])
+    return E.call_closure(a[1], [])
+
+
+@summ('Option::ok_or')
+def s_opt_ok_or(E, a, info):
+    if a[0].variant == 'Some':
+        return Agg('Result', 'Ok', (a[0].fields[0],))
+    return Agg('Result', 'Err', (a[1],))
+
+
+@summ('Option::filter')
+def s_opt_filter(E, a, info):
+    if a[0].variant == 'Some':
+        tmp = Ptr(E.new_obj('tmp', a[0].fields[0]))
+        if E.branch(E.call_closure(a[1], [tmp])):
+            return a[0]
+    return NONE
+
+
+@summ('Option::or')
+def s_opt_or(E, a, info):
+    return a[0] if a[0].variant == 'Some' else a[1]
+
+
+@summ('Option::is_some_and')
+def s_opt_is_some_and(E, a, info):
+    if a[0].variant == 'Some':
+        return E.call_closure(a[1], [a[0].fields[0]])
+    return False
+
+
+@summ('Option::zip')
+def s_opt_zip(E, a, info):
+    if a[0].variant == 'Some' and a[1].variant == 'Some':
+        return some(tup(a[0].fields[0], a[1].fields[0]))
+    return NONE
+
+
+@summ('Result::ok')
+def s_res_ok(E, a, info):
+    return some(a[0].fields[0]) if a[0].variant == 'Ok' else NONE
+
+
+@summ('Result::is_ok')
+def s_res_is_ok(E, a, info):
+    return E.read(a[0]).variant == 'Ok'
+
+
+@summ('Result::is_err')
+def s_res_is_err(E, a, info):
+    return E.read(a[0]).variant == 'Err'
+
+
+@summ('Result::map')
+def s_res_map(E, a, info):
+    if a[0].variant == 'Ok':
+        return Agg('Result', 'Ok', (E.call_closure(a[1], [a[0].fields[0]]),))
+    return a[0]
+
+
+@summ('Result::unwrap_or')
+def s_res_unwrap_or(E, a, info):
+    return a[0].fields[0] if a[0].variant == 'Ok' else a[1]
+
+
+@summ('core::num::<impl usize>::overflowing_sub')
+def s_overflowing_sub(E, a, info):
+    return tup(s_sub(a[0], a[1]), s_ult(a[0], a[1]))
+
+
+@summ('core::num::<impl usize>::overflowing_add')
+def s_overflowing_add(E, a, info):
+    r = s_add(a[0], a[1])
+    return tup(r, s_ult(r, a[0]))
+
+
+@summ('core::num::<impl usize>::abs_diff')
+def s_abs_diff(E, a, info):
+    return s_ite(s_ule(a[1], a[0]), s_sub(a[0], a[1]), s_sub(a[1], a[0]))
+
+
+@summ('core::num::<impl usize>::is_power_of_two', 'core::num::<impl usize>::count_ones')
+def s_unsupported_int(E, a, info):
+    raise Unsupported(info['key'])
+
+
+@summ('<usize as PartialOrd>::lt', '<usize as PartialOrd>::le', '<usize as PartialOrd>::gt', '<usize as PartialOrd>::ge',
+      '<usize as PartialEq>::eq', '<usize as PartialEq>::ne')
+def s_usize_cmp(E, a, info):
+    x = E.read(a[0])
+    y = E.read(a[1])
+    m = info['key'].split('::')[-1]
+    return {'lt': s_ult(x, y), 'le': s_ule(x, y), 'gt': s_ult(y, x), 'ge': s_ule(y, x), 'eq': s_eq(x, y), 'ne': s_not(s_eq(x, y))}[m]
+
+
+@summ('<usize as Ord>::cmp', 'core::cmp::Ord::cmp')
+def s_usize_ord_cmp(E, a, info):
+    x = E.read(a[0])
+    y = E.read(a[1])
+    if E.branch(s_ult(x, y)):
+        return Agg('Ordering', 'Less')
+    if E.branch(s_eq(x, y)):
+        return Agg('Ordering', 'Equal')
+    return Agg('Ordering', 'Greater')
+
+
+@summ('<usize as Clone>::clone', '<bool as Clone>::clone', '<NonNull as Clone>::clone', '<*mut RcBox as Clone>::clone')
+def s_copy_clone(E, a, info):
+    return E.read(a[0])
+
+
+@summ('<usize as Default>::default')
+def s_usize_default(E, a, info):
+    return 0
+
+
+@summ('<usize as AddAssign>::add_assign')
+def s_add_assign(E, a, info):
+    E.write(a[0], s_add(E.read(a[0]), a[1]))
+    return UNIT
+
+
+@summ('<usize as SubAssign>::sub_assign')
+def s_sub_assign(E, a, info):
+    x = E.read(a[0])
+    if not E.branch(s_ule(a[1], x)):
+        raise Panic('attempt to subtract with overflow', 'sub_assign')
+    E.write(a[0], s_sub(x, a[1]))
+    return UNIT
+
+
+# Vec / slices
+@summ('Vec::extend', '<Vec as Extend>::extend')
+def s_vec_extend(E, a, info):
+    oid, o = _vec(E, a[0])
+    it = s_iter_into_iter(E, [a[1]], info) if not (isinstance(a[1], Agg) and a[1].name.endswith(('Iter', 'Ad'))) else a[1]
+    tmp = Ptr(E.new_obj('tmp', it))
+    while True:
+        r = iter_next(E, tmp)
+        if r.variant == 'None':
+            break
+        s_vec_push(E, [a[0], r.fields[0]], info)
+    return UNIT
+
+
+@summ('Vec::retain')
+def s_vec_retain(E, a, info):
+    oid, o = _vec(E, a[0])
+    keep = []
+    for k, x in enumerate(list(o.value)):
+        E.work += 1
+        if E.branch(E.call_closure(a[1], [Ptr(oid, (k,))])):
+            keep.append(x)
+        else:
+            raise Unsupported('Vec::retain dropping elements')
+    o.value[:] = keep
+    return UNIT
+
+
+@summ('Vec::drain')
+def s_vec_drain(E, a, info):
+    oid, o = _vec(E, a[0])
+    items = tuple(o.value)
+    o.value[:] = []
+    return Agg('Drain', None, (tuple((x, UNIT) for x in items), 0, 'vec'))
+
+
+@summ('Vec::first', 'Vec::last')
+def s_vec_first(E, a, info):
+    return s_slice_first(E, a, info)
+
+
+@summ('Vec::get', 'Vec::get_mut')
+def s_vec_get(E, a, info):
+    return s_slice_get(E, a, info)
+
+
+@summ('Vec::capacity')
+def s_vec_capacity(E, a, info):
+    oid, o = _vec(E, a[0])
+    return o.meta.get('cap', 0)
+
+
+@summ('Vec::reserve', 'Vec::shrink_to_fit', 'HashMap::reserve', 'HashMap::shrink_to_fit')
+def s_reserve(E, a, info):
+    return UNIT
+
+
+@summ('Vec::reverse')
+def s_vec_reverse(E, a, info):
+    oid, o = _vec(E, a[0])
+    o.value.reverse()
+    return UNIT
+
+
+@summ('Vec::append')
+def s_vec_append(E, a, info):
+    oid, o = _vec(E, a[0])
+    oid2, o2 = _vec(E, a[1])
+    o.value.extend(o2.value)
+    o2.value[:] = []
+    return UNIT
+
+
+# iterator adapters
+@summ('<* as Iterator>::rev')
+def s_iter_rev(E, a, info):
+    it = a[0]
+    if it.name in ('SliceIter', 'VecIntoIter'):
+        raise Unsupported('rev() on vec iterators')
+    if it.name in ('MapIter', 'KeysIter', 'ValuesIter', 'IntoIter'):
+        oid, keys, pos = it.fields
+        return Agg(it.name, None, (oid, tuple(reversed(keys[pos:])), 0))
+    raise Unsupported('rev() on %s' % it.name)
+
+
+@summ('<* as Iterator>::enumerate', '<* as Iterator>::peekable', '<* as Iterator>::fuse', '<* as Iterator>::by_ref')
+def s_iter_passthrough_unsupported(E, a, info):
+    if info['key'].endswith(('fuse', 'by_ref')):
+        return a[0]
+    raise Unsupported(info['key'])
+
+
+@summ('<* as Iterator>::collect')
+def s_iter_collect(E, a, info):
+    ty = info['gen'][0] if info['gen'] else ''
+    hd = I.last_seg(I.ty_head(ty))
+    tmp = Ptr(E.new_obj('tmp', a[0]))
+    if hd == 'Vec':
+        v = s_vec_new(E, [], info)
+        vp = Ptr(E.new_obj('tmp', v))
+        while True:
+            r = iter_next(E, tmp)
+            if r.variant == 'None':
+                return v
+            s_vec_push(E, [vp, r.fields[0]], info)
+    if hd in ('HashMap', 'HashSet'):
+        m = _new_map(E, hd == 'HashSet')
+        oid, md = E.map_of(m)
+        while True:
+            r = iter_next(E, tmp)
+            if r.variant == 'None':
+                return m
+            item = r.fields[0]
+            if hd == 'HashSet':
+                if E.map_find(md, item) is None:
+                    _map_insert_new(E, oid, md, item, UNIT)
+            else:
+                k, v = item.fields
+                f = E.map_find(md, k)
+                if f is None:
+                    _map_insert_new(E, oid, md, k, v)
+                else:
+                    md.vals[f] = v
+    raise Unsupported('collect::<%s>' % ty)
+
+
+@summ('<* as Iterator>::fold')
+def s_iter_fold(E, a, info):
+    tmp = Ptr(E.new_obj('tmp', a[0]))
+    acc = a[1]
+    while True:
+        r = iter_next(E, tmp)
+        if r.variant == 'None':
+            return acc
+        acc = E.call_closure(a[2], [acc, r.fields[0]])
+
+
+@summ('<* as Iterator>::find', '<* as Iterator>::position')
+def s_iter_find(E, a, info):
+    k = 0
+    while True:
+        r = iter_next(E, a[0])
+        if r.variant == 'None':
+            return NONE
+        if info['key'].endswith('find'):
+            item = Ptr(E.new_obj('tmp', r.fields[0]))
+            if E.branch(E.call_closure(a[1], [item])):
+                return r
+        else:
+            if E.branch(E.call_closure(a[1], [r.fields[0]])):
+                return some(k)
+        k += 1
+
+
+@summ('<* as Iterator>::filter_map')
+def s_iter_filter_map(E, a, info):
+    return Agg('FilterMapAd', None, (a[0], a[1]))
+
+
+@summ('<* as Iterator>::copied', '<* as Iterator>::cloned')
+def s_iter_copied(E, a, info):
+    return Agg('CopiedAd', None, (a[0],))
+
+
+@summ('<* as Iterator>::max', '<* as Iterator>::min')
+def s_iter_max(E, a, info):
+    tmp = Ptr(E.new_obj('tmp', a[0]))
+    best = None
+    while True:
+        r = iter_next(E, tmp)
+        if r.variant == 'None':
+            return _opt(best)
+        x = r.fields[0]
+        if best is None:
+            best = x
+        elif info['key'].endswith('max'):
+            best = s_ite(s_ule(best, x), x, best)
+        else:
+            best = s_ite(s_ule(x, best), x, best)
+
+
+_iter_next_base = iter_next
+
+
+def iter_next(E, itptr):      # noqa: F811  (extends the dispatcher above with the adapters defined in this section)
+    it = E.read(itptr)
+    if isinstance(it, Agg) and it.name == 'FilterMapAd':
+        inner, clos = it.fields
+        tmp = Ptr(E.new_obj('tmp', inner))
+        while True:
+            r = _iter_next_base(E, tmp) if E.read(tmp).name not in ('FilterMapAd', 'CopiedAd') else iter_next(E, tmp)
+            E.write(itptr, Agg('FilterMapAd', None, (E.read(tmp), clos)))
+            if r.variant == 'None':
+                return NONE
+            o = E.call_closure(clos, [r.fields[0]])
+            if o.variant == 'Some':
+                return o
+    if isinstance(it, Agg) and it.name == 'CopiedAd':
+        tmp = Ptr(E.new_obj('tmp', it.fields[0]))
+        r = iter_next(E, tmp)
+        E.write(itptr, Agg('CopiedAd', None, (E.read(tmp),)))
+        if r.variant == 'None':
+            return NONE
+        return some(E.read(r.fields[0]))
+    if isinstance(it, Agg) and it.name in ('MapAd', 'FilterAd') and isinstance(it.fields[0], Agg) and it.fields[0].name in ('FilterMapAd', 'CopiedAd'):
+        inner, clos = it.fields
+        tmp = Ptr(E.new_obj('tmp', inner))
+        while True:
+            r = iter_next(E, tmp)
+            E.write(itptr, Agg(it.name, None, (E.read(tmp), clos)))
+            if r.variant == 'None':
+                return NONE
+            if it.name == 'MapAd':
+                return some(E.call_closure(clos, [r.fields[0]]))
+            item = Ptr(E.new_obj('tmp', r.fields[0]))
+            if E.branch(E.call_closure(clos, [item])):
+                return r
+    if isinstance(it, Agg) and it.name == 'Drain' and len(it.fields) == 3:
+        items, pos, _ = it.fields
+        if pos >= len(items):
+            return NONE
+        E.write(itptr, Agg('Drain', None, (items, pos + 1, 'vec')))
+        return some(items[pos][0])
+    return _iter_next_base(E, itptr)
+
+
+SUMMARIES['<Iter as Iterator>::next'] = lambda E, a, info: iter_next(E, a[0])
+SUMMARIES['<* as Iterator>::next'] = lambda E, a, info: iter_next(E, a[0])
+
+
+# hash maps: the rest of the commonly used surface
+@summ('HashMap::remove_entry')
+def s_map_remove_entry(E, a, info):
+    oid, md = E.map_of(a[0])
+    key = E.read(a[1])
+    k = E.map_find(md, key)
+    if k is None:
+        return NONE
+    v = md.vals.pop(k)
+    md.keys.remove(k)
+    return some(tup(k, v))
+
+
+@summ('HashMap::get_key_value')
+def s_map_get_key_value(E, a, info):
+    oid, md = E.map_of(a[0])
+    key = E.read(a[1])
+    k = E.map_find(md, key)
+    if k is None:
+        return NONE
+    return some(tup(Ptr(oid, (('key', k),)), Ptr(oid, (('val', k),))))
+
+
+@summ('HashMap::into_keys', 'HashMap::into_values')
+def s_map_into_kv(E, a, info):
+    raise Unsupported(info['key'])
+
+
+@summ('HashSet::iter', '<&HashSet as IntoIterator>::into_iter')
+def s_set_iter(E, a, info):
+    oid, md = E.map_of(a[0])
+    return Agg('KeysIter', None, (oid, tuple(E.iter_keys(oid, md)), 0))
+
+
+@summ('HashSet::get', 'HashSet::take')
+def s_set_get(E, a, info):
+    raise Unsupported(info['key'])
+
+
+@summ('HashMap::extend', 'HashSet::extend')
+def s_map_extend(E, a, info):
+    raise Unsupported(info['key'])
